@@ -156,6 +156,13 @@ def acgap(draw, n):
 @st.composite
 def case1(draw, nmax, vmax=10000, encs=("int16", "float32", "float64")):
     s = draw(gens.series(nmin=3, nmax=nmax, vmax=vmax))
+    if draw(st.integers(0, 11)) == 0 and len(s["y"]) >= 6:
+        # a quiet record (a few units of variation) whose first or last value is far away
+        nz = draw(st.integers(1, 4))
+        base = draw(st.integers(-vmax // 2, vmax // 2))
+        q = [base + v for v in draw(st.lists(st.integers(-nz, nz), min_size=len(s["y"]), max_size=len(s["y"])))]
+        q[0 if draw(st.booleans()) else -1] = max(-vmax, min(vmax, base + draw(st.sampled_from([-1, 1])) * draw(st.integers(vmax // 4, vmax // 2))))
+        s = {"cls": "quiet_with_end_outlier", "y": q}
     n = len(s["y"])
     g = draw(acgap(n))
     enc = draw(st.sampled_from(encs))
